@@ -282,17 +282,18 @@ def p_stmt(s, rng, nl=0.3):
         return s[1] + ("++" if s[2] > 0 else "--")
     if k == "if":
         bl = lambda b: "{" + rng.choice([" ", "\n", ""]) + p_block(b, rng, nl) + "}"
-        t = "%s%s(%s)%s%s" % (rng.choice(["IF", "If"]), rng.choice(["", " "]), p_cond(s[1], rng), rng.choice(["", " "]), bl(s[2]))
+        # the opening brace may stand on a later line (IF / ELSE / FOR / WHILE / FUNCTION alike)
+        t = "%s%s(%s)%s%s" % (rng.choice(["IF", "If"]), rng.choice(["", " "]), p_cond(s[1], rng), rng.choice(["", " ", "", " ", "\n", " \n  "]), bl(s[2]))
         if s[3] is not None:
-            t += rng.choice([" ", "", "\n", " \n "]) + rng.choice(["ELSE", "Else"]) + rng.choice(["", " "]) + bl(s[3])
+            t += rng.choice([" ", "", "\n", " \n "]) + rng.choice(["ELSE", "Else"]) + rng.choice(["", " ", "", " ", "\n", " \n  "]) + bl(s[3])
         return t
     if k == "while":
-        return "%s%s(%s)%s{%s%s}" % (rng.choice(["WHILE", "While"]), rng.choice(["", " "]), p_cond(s[1], rng), rng.choice(["", " "]),
+        return "%s%s(%s)%s{%s%s}" % (rng.choice(["WHILE", "While"]), rng.choice(["", " "]), p_cond(s[1], rng), rng.choice(["", " ", "", " ", "\n", " \n  "]),
                                      rng.choice([" ", "\n"]), p_block(s[2], rng, nl))
     if k == "for":
         inc = p_stmt(s[4], rng).rstrip(";")
         return "%s(%s %s=%s; %s; %s)%s{%s%s}" % (rng.choice(["FOR", "For"]), rng.choice(["INT", "Int"]), s[1], p_expr(s[2], rng), p_cond(s[3], rng),
-                                               inc, rng.choice(["", " "]), rng.choice([" ", "\n"]), p_block(s[5], rng, nl))
+                                               inc, rng.choice(["", " ", "", " ", "\n", " \n  "]), rng.choice([" ", "\n"]), p_block(s[5], rng, nl))
     if k == "break":
         return rng.choice(["BREAK", "Break", "EXIT"])
     if k == "continue":
